@@ -93,11 +93,11 @@ func (p *obsProg) n() int { return len(p.x.M.Ents) }
 
 func obsFilters() []model.FilterSpec {
 	return []model.FilterSpec{
-		{Params: []ct.Comp{ct.P}, Without: ct.Of(ct.Q)}, // f0: has P, lacks Q
-		{Params: []ct.Comp{ct.Q}},                       // f1
-		{Params: []ct.Comp{ct.R1}},                      // f2
-		{Params: []ct.Comp{ct.P}},                       // f3
-		{Params: []ct.Comp{ct.R1, ct.R2}},               // f4
+		{Params: []ct.Comp{ct.P}, Without: ct.Of(ct.Q)},  // f0: has P, lacks Q
+		{Params: []ct.Comp{ct.Q}},                        // f1
+		{Params: []ct.Comp{ct.R1}},                       // f2
+		{Params: []ct.Comp{ct.P}},                        // f3
+		{Params: []ct.Comp{ct.R1, ct.R2}},                // f4
 		{Params: []ct.Comp{ct.P}, Without: ct.Of(ct.R1)}, // f5
 	}
 }
@@ -195,9 +195,9 @@ func transitions(p *obsProg, full bool) {
 		e := p.n()
 		p.do(model.Op{K: model.OpNew, Path: model.PathMapN, Cs: ct.Of(ct.R1, ct.R2), T: []model.RelT{{C: ct.R1, T: t1}, {C: ct.R2, T: t1}}})
 		p.do(model.Op{K: model.OpSetRel, Path: model.PathMapN, E: e, Ord: []ct.Comp{ct.R1, ct.R2}, T: []model.RelT{{C: ct.R1, T: t1}, {C: ct.R2, T: t2}}}) // only R2 changes
-		p.do(model.Op{K: model.OpSetRel, Path: model.PathUnsafe, E: e, T: []model.RelT{{C: ct.R1, T: t2}, {C: ct.R2, T: t2}}})                            // only R1 changes
+		p.do(model.Op{K: model.OpSetRel, Path: model.PathUnsafe, E: e, T: []model.RelT{{C: ct.R1, T: t2}, {C: ct.R2, T: t2}}})                             // only R1 changes
 		p.do(model.Op{K: model.OpSetRel, Path: model.PathMapN, E: e, Ord: []ct.Comp{ct.R1, ct.R2}, T: []model.RelT{{C: ct.R1, T: t1}, {C: ct.R2, T: t1}}}) // both change
-		p.do(model.Op{K: model.OpSetRel, Path: model.PathUnsafe, E: e, T: []model.RelT{{C: ct.R1, T: t1}, {C: ct.R2, T: t1}}})                            // none changes
+		p.do(model.Op{K: model.OpSetRel, Path: model.PathUnsafe, E: e, T: []model.RelT{{C: ct.R1, T: t1}, {C: ct.R2, T: t1}}})                             // none changes
 		p.do(model.Op{K: model.OpSetRelBatch, Path: model.PathMapN, F: 4, Ord: []ct.Comp{ct.R1, ct.R2}, T: []model.RelT{{C: ct.R1, T: t1}, {C: ct.R2, T: t2}}, Fn: true})
 		p.do(model.Op{K: model.OpRemove, Path: model.PathMapN, E: e, Rm: ct.Of(ct.R2)})
 		p.do(model.Op{K: model.OpAdd, Path: model.PathMapN, E: e, Cs: ct.Of(ct.R2), T: rel(ct.R2, t2)})
